@@ -336,6 +336,17 @@ def gen_c04(rnd, n, thorough=False):
             lines.append("fetch f %d %d %d %d" % (a, fr, un, now))
             tags['ops'][e] = tags['ops'].get(e, 0) + 1
         cases.append({'id': 'c04-%d' % c, 'lines': lines, 'tags': tags})
+        if c == 3:
+            # windows of more than a megabyte of slots (and the same on a never-written archive): the shape
+            # is that of the bounds whatever the amount of data behind it
+            N = rnd.pick([100000, 120000]) if not thorough else 180000
+            nw = 1700000000 + rnd.randint(0, 10 ** 6)
+            big = ["create w 1 1 %d m 2 x 3f000000" % N, "create e 1 1 %d m 2 x 3f000000" % N,
+                   "many w 0 %d 3 %d %016x %d %016x %d %016x" % (nw, nw, fbits(1.0), nw - N + 1, fbits(2.0), nw - 50000, fbits(3.0))]
+            for fr, un in ([(nw - N, nw), (nw - 87382, nw), (nw - 3600, nw)] if not thorough else [(nw - N, nw), (nw - 90000, nw), (nw - 87382, nw), (nw - 87381, nw - 1), (0, nw), (nw - 3600, nw)]):
+                big.append("fetch w 0 %d %d %d" % (fr, un, nw))
+            big.append("fetch e 0 %d %d %d" % (nw - N, nw, nw))
+            cases.append({'id': 'c04-%d-big' % c, 'lines': big, 'tags': {'layout': 'big%d' % N, 'levels': 1, 'fill': 'partial', 'ops': {'fetch': 12}}})
     # small-scope exhaustive sweeps: EVERY (archive id, from, until) around a small layout, for an
     # aligned and an unaligned clock, on a never-written and on a fully written file
     small = [[(1, 3), (3, 2)]] if not thorough else [[(1, 3)], [(1, 3), (3, 2)], [(1, 4), (2, 4)], [(2, 3), (6, 2)], [(1, 2), (2, 2), (4, 3)]]
